@@ -118,8 +118,12 @@ def monitor(ex, final):
                 g = seen.get(tag)
                 if g is not None and g['t'] <= p.t_end:
                     continue
-                if _session_ended_by(ex, s, p.t_end) or s.upg_attempts:
+                if _session_ended_by(ex, s, p.t_end):
                     continue
+                x = sent[tag]
+                if any(b <= p.t_end and (e is None or e >= x['t']) for b, e, _ in
+                       upgrade_windows(s)):
+                    continue        # an upgrade window overlapped: it may travel on either side
                 raise V(ex, 'poll-did-not-return-everything-queued',
                         'missing-after-%d-packets' % len(types),
                         'session %d: %s was queued before the poll started but the answer '
